@@ -283,7 +283,7 @@ SPEC = {
     'rule': ('spinless: every L in 1..7 (thorough 1..9) x coefficient kinds {real, complex, symmetric (gint cancels), Hermitian, zero-padded with an '
              'empty orbital, single non-zero entry, integer-valued}: optimized path for L>=1, explicit for L>=4, each against the bit-string Fock-space '
              'reference, and against each other; spin-orbital: L 1..5 (thorough 6, sparse comparison), optimized L>=1, explicit L>=2 (covers the '
-             'L>=5 regression); gauge: L 4..7(8), every rotated pair i, unitaries {random, identity, swap, diagonal phases, real rotation}: tensors i,i+1 '
+             'L>=5 regression); gauge: L 4..7(8), every rotated pair i, unitaries {random, identity, swap, diagonal phases, real rotation}, every coefficient kind of the build workloads plus identically zero tkin / vint: tensors i,i+1 '
              'replaced by those of the rotated-coefficient MPO, gauge matrices applied, compared with the rotated Fock reference. The identically-zero '
              'operator is excluded on the optimized path. distinct = (family, L, kind, unitary, position).'),
     'deciding': ['mol.matrix==second-quantised-formula[opt]', 'mol.matrix==second-quantised-formula[explicit]', 'mol.optimized==explicit',
